@@ -227,6 +227,16 @@ func (s sliceErr) Unwrap() error {
 	return nil
 }
 
+// multiErr is an error with a list of causes (the errors.Join shape: Unwrap() []error); the list may
+// be empty, nil, or hold nils.
+type multiErr struct {
+	msg  string
+	list []error
+}
+
+func (m *multiErr) Error() string   { return m.msg }
+func (m *multiErr) Unwrap() []error { return m.list }
+
 // detailErr is a value-type error whose interface field can hold something that does not support ==
 // (a slice): comparing two of them with == compiles and panics at run time.
 type detailErr struct {
@@ -264,6 +274,14 @@ func hostileErrors() map[string]error {
 		"crlf-msg":         errors.New("a\r\ngrpc-status: 0\r\n\r\n"),
 		"binary-msg":       errors.New(string([]byte{0, 1, 2, 0xff, 0xfe, '"', '\\'})),
 	}
+	out["multi-empty-list"] = &multiErr{"quota exceeded", []error{}}
+	out["multi-nil-list"] = &multiErr{"validation", nil}
+	out["multi-list-of-nils"] = &multiErr{"m", []error{nil, nil}}
+	out["multi-coded-second"] = &multiErr{"m", []error{base, drpcerr.WithCode(base, 9)}}
+	out["multi-in-multi-empty"] = &multiErr{"m", []error{&multiErr{"inner", nil}}}
+	out["wrapped-multi-empty"] = fmt.Errorf("ctx: %w", &multiErr{"m", []error{}})
+	out["coded-multi-empty"] = drpcerr.WithCode(&multiErr{"m", nil}, 3)
+	out["join-of-nothing-wrapped"] = &wrapU{"w", &multiErr{"m", []error{}}}
 	out["value-with-slice-in-interface-field-x2"] = detailErr{Details: []string{"a"}, Inner: detailErr{Details: []string{"a"}, Inner: base}}
 	out["value-with-map-in-interface-field-x3"] = detailErr{Details: map[string]int{"a": 1}, Inner: detailErr{Details: map[string]int{"a": 1}, Inner: detailErr{Details: map[string]int{"a": 1}}}}
 	out["value-with-func-in-interface-field-coded"] = detailErr{Details: func() {}, Inner: detailErr{Details: func() {}, Inner: drpcerr.WithCode(base, 4)}}
